@@ -299,4 +299,37 @@ GSwapCommutes ==
     (Swappable(def, a) /\ Swappable(def, b) /\ GOwner(def, a.s) # GOwner(def, b.s)
        /\ ~GRun(def, GInitSt(def), SubSeq(line, 1, k - 1)).posOnly) =>
       GOutcome(def, GRun(def, GInitSt(def), SubSeq(line, 1, k - 1) \o <<b, a>> \o SubSeq(line, k + 2, Len(line))), env) = GOut
+(* ------------------------------------------------------------------ C14 on one level with choices and groups *)
+\* upper bound: visible names of the level's items that match what was typed, completer values of the pending argument
+GMayOffer(d, gs, p) ==
+  {Pref(it) : it \in {x \in GLeaves(d) : ~x.hidden /\ NameMatches(x, p)}}
+  \cup (IF gs.pending # "" THEN UNION {RangeOf(x.completer) : x \in {y \in GLeaves(d) : y.id = gs.pending}} ELSE {})
+  \cup UNION {IF d.named[k].kind = "adj" /\ d.named[k].head.kind = "cmd" /\ (p.k = "fresh" \/ (p.k = "word" /\ IsPrefix(p.cs, d.named[k].head.nchars[1])))
+              THEN {d.named[k].head.names[1]} ELSE {} : k \in DOMAIN d.named}
+  \cup {"--"}
+\* lower bound for a fresh prefix: visible names of plain items not given yet, and of the members of a choice
+\* none of whose branches has been given (items of adjacent groups are outside the property's lower bound)
+GMustOffer(d, gs, p) ==
+  IF gs.pending # "" \/ gs.posOnly \/ gs.open.k # 0 \/ p.k \notin {"fresh", "dash", "long"} THEN {}
+  ELSE UNION {LET f == d.named[k] IN
+              IF IsLeaf(f)
+              THEN (IF ~f.hidden /\ NameMatches(f, p) /\ ~(SingleUse(f) /\ gs.acc[f.id] # <<>>) THEN {Pref(f)} ELSE {})
+              ELSE IF f.kind = "alt" /\ ~f.hidden /\ \A it \in BranchLeaves(f) : gs.acc[it.id] = <<>>
+              THEN {Pref(it) : it \in {x \in BranchLeaves(f) : ~x.hidden /\ NameMatches(x, p)}}
+              ELSE IF f.kind = "alt" /\ ~f.hidden /\ f.arity \in {"one", "opt"}
+              THEN \* the branch the user has started: its remaining required items
+                   LET started == {b \in DOMAIN f.branches : \E it \in RangeOf(f.branches[b].fields) : gs.acc[it.id] # <<>>} IN
+                   IF Cardinality(started) # 1 THEN {}
+                   ELSE LET b == CHOOSE x \in started : TRUE IN
+                        {Pref(it) : it \in {x \in RangeOf(f.branches[b].fields) : ~x.hidden /\ NameMatches(x, p) /\ gs.acc[x.id] = <<>>}}
+              ELSE {} : k \in DOMAIN d.named}
+GPartials(d) ==
+  {[k |-> "fresh"], [k |-> "dash"], [k |-> "long", cs |-> <<>>]}
+  \cup UNION {{[k |-> "long", cs |-> SubSeq(it.lchars[1], 1, n)] : n \in {1, Len(it.lchars[1]) - 1} \ {0}} : it \in {x \in GLeaves(d) : x.longs # <<>>}}
+  \cup {[k |-> "short", s |-> it.shorts[1]] : it \in {x \in GLeaves(d) : x.shorts # <<>>}}
+GViable(d, gs) ==
+  /\ gs.dead = "" /\ ~gs.help /\ ~gs.posOnly
+  /\ \A it \in GLeaves(d) : ((SingleUse(it) /\ AdjOf(d, it.id) = {}) => (Len(gs.acc[it.id]) <= 1))
+  /\ \A it \in GLeaves(d) : ((it.kind = "arg") => (\A i \in DOMAIN gs.acc[it.id] : ~BadValue(it, gs.acc[it.id][i].v)))
+GCompletionSandwich == \A p \in GPartials(def) : GMustOffer(def, st, p) \subseteq GMayOffer(def, st, p)
 =============================================================================
